@@ -318,7 +318,17 @@ def instrument_pops(sim, pops, limit, w=None):
 
 
 def run_script(script, mode="plain", control_script=None):
-    """Run on the implementation.  mode: plain | recorder | tracing | control-idle."""
+    """Run on the implementation.  A wall-clock timeout alone is not evidence of a livelock (the first
+    run in a fresh worker pays for the imports, and the machine may be starved): the run is repeated
+    once with a nine times longer limit, and only a second timeout is reported (status 3)."""
+    o = _run_script_once(script, mode, control_script, 20)
+    if o["status"] == 3:
+        o = _run_script_once(script, mode, control_script, 180)
+    return o
+
+
+def _run_script_once(script, mode, control_script, wall):
+    """mode: plain | recorder | tracing | control-idle."""
     from happysimulator.core import event as event_mod
     from happysimulator.core.simulation import Simulation
     from happysimulator.core.temporal import Instant
@@ -343,7 +353,7 @@ def run_script(script, mode="plain", control_script=None):
         event_mod.enable_event_tracing()
     status = 0
     try:
-        with time_limit(20):
+        with time_limit(wall):
             sim.run()
     except Watchdog:
         status = 2
@@ -494,6 +504,15 @@ def gen_bp(rng):
 
 
 def run_session(script, cmds, hooks=True):
+    """Same retry rule as run_script: a per-command wall-clock timeout is reported only if it repeats
+    with a twelve times longer limit."""
+    o = _run_session_once(script, cmds, hooks, 10)
+    if o["status"] == 3:
+        o = _run_session_once(script, cmds, hooks, 120)
+    return o
+
+
+def _run_session_once(script, cmds, hooks, wall):
     from happysimulator.core.control.breakpoints import (EventCountBreakpoint, EventTypeBreakpoint, MetricBreakpoint,
                                                          TimeBreakpoint)
     from happysimulator.core.simulation import Simulation
@@ -520,7 +539,7 @@ def run_session(script, cmds, hooks=True):
         before = len(pops)
         before_ulog, before_hook = len(w.ulog), len(hook_log)
         try:
-            with time_limit(10):
+            with time_limit(wall):
                 if cmd[0] == "pause":
                     ctl.pause()
                 elif cmd[0] == "start":
